@@ -2,6 +2,8 @@
 from __future__ import annotations
 import ast, json, os, subprocess, tempfile, time, traceback, z3
 from .core import *
+import sys as _sys
+_sys.setrecursionlimit(6000)
 from . import core
 from . import objects as O
 from . import source, models, state
@@ -119,6 +121,9 @@ class BaseSpec:
     def ext_value(self, I, dotted):
         return None
 
+    def eq_override(self, I, a, b):
+        return None
+
     def ext_call(self, I, dotted, args, kwargs, star):
         parts = dotted.split(".")
         if parts[-1] in models.LOGGING_NOOPS and ("logger" in dotted.lower() or "logging" in dotted.lower()):
@@ -126,10 +131,28 @@ class BaseSpec:
         raise OutsideSubset(f"external function {dotted} has no model")
 
     def obj_truthy(self, I, v):
-        raise OutsideSubset("truthiness of an opaque object")
+        """bool(x) of an opaque object: an uninterpreted pure observer (assumed: __bool__/__len__ of opaque
+        objects are pure, deterministic and do not raise)"""
+        self.assumptions.add("bool() of an opaque object is a pure, deterministic, non-raising observer")
+        return z3.Function("ObjTruthy", core.I, core.B)(V.oid(v))
 
     def obj_attr(self, I, v, name):
+        """opaque objects: spec-declared abstract methods (self.obj_methods) and observers (self.obj_attrs)"""
+        if name in getattr(self, "obj_methods", {}):
+            return O.HMeth(v, name)
+        if name in getattr(self, "obj_attrs", {}):
+            return self.obj_attrs[name](I, v)
+        if name == "__class__":
+            return V.cls(objcls(V.oid(v)))
+        if name in getattr(self, "obj_missing", ()):
+            return _MISSING
         raise OutsideSubset(f"attribute {name} of an opaque object")
+
+    def obj_method_call(self, I, recv, name, args, kwargs, star):
+        h = getattr(self, "obj_methods", {}).get(name)
+        if h is None:
+            raise OutsideSubset(f"method {name} of an opaque object")
+        return h(I, recv, args, kwargs, star)
 
     def obj_setattr(self, I, v, name, value):
         raise OutsideSubset(f"setattr {name} on an opaque object")
